@@ -66,7 +66,7 @@ var gfTargets = []gfTarget{
 	{"mp", "lib/mp/map.go", "gen_prog_mp", []string{"calcIndex"}, false},                                          // C13, C19
 	{"httpgun", "components/guns/http/base.go", "gen_prog_httpgun", []string{"autotag"}, false},                   // C10
 	{"istep", "core/schedule/instance_step.go", "gen_prog_istep", []string{"NewInstanceStep"}, false},             // C12
-	{"waiter", "core/coreutil/waiter.go", "gen_prog_waiter", []string{"Waiter.IsSlowDown", "Waiter.Wait"}, false}, // C04
+	{"waiter", "core/coreutil/waiter.go", "gen_prog_waiter", []string{"Waiter.IsSlowDown", "Waiter.Wait", "Waiter.IsFinished"}, false}, // C04 (IsFinished: also C03)
 	{"instance", "core/engine/instance.go", "gen_prog_instance", []string{"instance.Run"}, true},                   // C03
 }
 
